@@ -311,6 +311,18 @@ def _wire_async():
         await asyncio.sleep(150.0)
         await r.spa.async_get_watercare()
         await r.spa.async_press(2)
+        # the OS reports a failed send (ICMP unreachable) for one watercare query and one key press: the endpoint
+        # stays open, the retry goes out, and the numbering carries on from where it was
+        for verb in (b"GETWC", b"SPACK"):
+            once = [verb]
+            r.net.fates = lambda src, dst, data: (["error"] if once and once[0] in data and not once.clear() else None)
+            if verb == b"GETWC":
+                await r.spa.async_get_watercare()
+            else:
+                await r.spa.async_press(1)
+            r.net.fates = None
+            await r.spa.async_get_watercare()
+            await r.spa.async_press(2)
 
     import asyncio
     t = r.call(lossy(), timeout=600.0)
